@@ -258,4 +258,7 @@ def run(check, an: Analysis):
     budget = 0
     if len(an.it.unresolved) > budget:
         raise AnalysisError('unresolved await sites: %s' % an.it.unresolved)
+    # the kernel rules every suspending operation rests on (shared; see _scope)
+    from . import _scope as _kernel
+    _kernel.check_kernel_core(check, an)
     check.stats.update(an.stats())
